@@ -4,7 +4,7 @@
     independent XML-patch applier [apply_ops]).  A document is written [plug ctx e]: the element [e]
     at the place described by the frames [ctx]; [located P ctx (sig_of e)] says that the selector [P]
     leads there. *)
-From Verif Require Import GoSem Patch PatchProofs PatchProofsCheck PatchProofsMyers PatchExamples.
+From Verif Require Import GoSem Patch PatchProofs PatchProofsCheck PatchProofsIds PatchProofsMyers PatchProofsMyersSafe PatchExamples.
 From Coq Require Import Permutation.
 
 (** addLeafListChanges: for ANY edit script that is valid for (old,new) under equalLeafs, the
@@ -38,6 +38,28 @@ Theorem C11_tree : forall diff fuel old new P ctx,
                    apply_ops ops (plug ctx old) = Some (plug ctx new') /\ sim new' new.
 Proof. exact tree_sound. Qed.
 Print Assumptions C11_tree.
+
+(** The same under a structural premise [tree_wa] instead of the resolution premise: for the children
+    of every element that is walked, no child's attribute-form address (Tag[@id=..], Tag[@schemeIdUri=..],
+    SegmentTemplate, SegmentTimeline) matches another child of the same list; kept pairs have the same
+    tag, id and schemeIdUri; a removed child is not addressed by position; the address of an inserted
+    child matches none of the old children still present and vice versa (no move); scripts valid.
+    Positional addresses of kept and inserted children need no premise (lastNewIdx is the right index). *)
+Theorem C11_tree_ids : forall diff fuel old new P ctx,
+  tree_wa diff fuel old new -> Forall addr_step P -> located P ctx (sig_of old) ->
+  exists ops new', elem_ops_with diff fuel old new P = Ok ops /\
+                   apply_ops ops (plug ctx old) = Some (plug ctx new') /\ sim new' new.
+Proof. exact tree_ids_sound. Qed.
+Print Assumptions C11_tree_ids.
+
+(** [tree_wa] is decidable too, and it implies [tree_ok]. *)
+Theorem C11_tree_ids_checkable : forall diff fuel old new,
+  tree_wab diff fuel old new = true -> tree_wa diff fuel old new /\ tree_ok diff fuel old new.
+Proof. exact (fun diff fuel old new H => conj (tree_wab_spec diff fuel old new H) (tree_wa_ok diff fuel old new (tree_wab_spec diff fuel old new H))). Qed.
+Print Assumptions C11_tree_ids_checkable.
+
+Example C11_tree_ids_example : tree_wab (@myers elem) (S (depth ex_old)) ex_old ex_new = true.
+Proof. exact ex_structural. Qed.
 
 (** MPDDiff as in the code (MyersDiff as differ): whenever the premise holds for the pair - in
     particular the scripts MyersDiff returned are valid - the patch applied to the old document
@@ -96,8 +118,19 @@ Proof.
 Qed.
 Print Assumptions C11_myers_valid_bounded.
 
+(** After b1a6767 (pyMod in [0,Z) for every index): MyersDiff never indexes its arrays c, d out of
+    range, for any two lists and any equality (before the fix it did for len(f) >= 3*len(e)+5:
+    patch.MyersDiff on one old and eight new elements panicked, a patch request was answered 500). *)
+Theorem C11_myers_index_safe : forall (e f : list Z), myers Z.eqb e f <> Panic cd_site.
+Proof. exact (myers_cd_safe Z.eqb). Qed.
+Print Assumptions C11_myers_index_safe.
+
+Theorem C11_myers_index_safe_elems : forall eqf (e f : list elem), myers eqf e f <> Panic cd_site.
+Proof. exact (@myers_cd_safe elem). Qed.
+Print Assumptions C11_myers_index_safe_elems.
+
 (** The full statement about MyersDiff, kept here as a definition: it is NOT proved for unbounded
-    inputs (and is false without the length restriction, see C11_myers_panic_refuted). Proved parts:
+    inputs. Proved parts: C11_myers_index_safe (no out-of-range access to c, d),
     C11_myers_valid_bounded above (exhaustive, bounded) and C11_myers_valid_snakes_* below (the divide
     step is right whenever the indices the search returns are in range - this follows from the snake
     loops alone). Missing: Myers' furthest-reaching invariant through the modulo-indexed arrays c, d
@@ -105,7 +138,7 @@ Print Assumptions C11_myers_valid_bounded.
     C11_checked holds for every pair on which the scripts are valid, and the correspondence checks
     valid_script on every script the implementation produced. *)
 Definition C11_myers_valid_statement : Prop :=
-  forall e f : list Z, lenZ f < 3 * lenZ e + 5 ->
+  forall e f : list Z,
   exists s, myers Z.eqb e f = Ok s /\ valid_script Z.eqb s e f = true.
 
 (** divide step, odd D (forward snake from (s,t) to (a,b); diffInternal recurses on e[0:s], f[0:t]
